@@ -245,7 +245,7 @@ def eval_long(i):
                            'cpu_cap_s': 8}], trans=1)
     if o[0] in ('OTHER', 'BADSHAPE', 'TypeError'):
         return Res(viols=[{'kind': 'unexpected-exception', 'text': text[:40] + '...(%d chars)' % len(text), 'options': kw, 'outcome': o[:2]}], trans=1)
-    return Res(trans=1, extra={'long_input_cpu_ms': int(1000 * (time.process_time() - t0))})
+    return Res(trans=1)          # (the CPU time itself is not recorded: evidence is the same from run to run)
 
 
 def eval_infoswitch(case):
